@@ -17,7 +17,8 @@ SERVER_EVENTS = ["fresh", "reuse", "svc", "svc_pending", "cclose", "crst", "reop
                  "svc_recv_eio", "port_taken", "port_freed"]
 TLS_ONLY = ("svc_pending", "svc_hs_eof", "svc_hs_sslerror", "svc_hs_reset")
 HS_ANSWER = {"svc_pending": "want_read", "svc_hs_eof": "eof", "svc_hs_sslerror": "sslerror", "svc_hs_reset": -104}
-CLIENT_EVENTS = ["up", "down", "connect", "service", "reopen", "close", "peerclose", "tick"]
+CLIENT_EVENTS = ["up", "down", "connect", "service", "reopen", "close", "peerclose", "tick", "doer-enter", "doer-exit"]
+# doer-enter / doer-exit: the client is run by its ClientDoer (enter opens it, exit closes it whatever state it is in)
 
 
 def depth(tier):
@@ -31,8 +32,8 @@ def RULE(tier):
             "taken by / released by another listener (so that a reopen fails to bind), client "
             "closes, client resets, server.reopen(), server.close()}; after close()/reopen() every socket the server created or "
             "accepted must have been close()d (listen socket, ixes, pending-handshake cxes, replaced connections). Client (plain and "
-            "TLS, reconnectable): {listener up/down, connect(), service(), reopen(), close(), peer closes, tyme advances}; after every "
-            "event at most the client's current socket is open. States are deduplicated on the full socket table + hio tables."
+            "TLS, reconnectable): {listener up/down, connect(), service(), reopen(), close(), peer closes, tyme advances, its ClientDoer entered / exited}; after every "
+            "event at most the client's current socket is open, after close() / the doer's exit none. States are deduplicated on the full socket table + hio tables."
             % depth(tier))
 
 
@@ -172,6 +173,7 @@ def run_client(tls, hist):
         kw = dict(host="127.0.0.1", port=6101, bs=64, reconnectable=True, tymeout=0.5, tymth=lambda: tyme[0])
         client = clienting.ClientTls(context=fakenet.FakeSSLContext(net), **kw) if tls else clienting.Client(**kw)
         ls = [None]
+        doer = [None]
         trace = []
         for i, ev in enumerate(hist):
             try:
@@ -193,6 +195,13 @@ def run_client(tls, hist):
                     client.reopen()
                 elif ev == "close":
                     client.close()
+                elif ev == "doer-enter":
+                    doer[0] = clienting.ClientDoer(client=client)
+                    doer[0].enter()
+                elif ev == "doer-exit":
+                    if doer[0] is None:
+                        doer[0] = clienting.ClientDoer(client=client)
+                    doer[0].exit()
                 elif ev == "peerclose":
                     for s in net.socks:
                         if s.kind == "accepted" and not s.closed:
@@ -204,6 +213,8 @@ def run_client(tls, hist):
                 trace.append("exc:" + type(ex).__name__)
             cur = getattr(client.cs, "raw", client.cs) if client.cs is not None else None
             mine = [s for s in net.socks if s.kind == "user" and s.owner != "raw"]
+            if ev in ("close", "doer-exit") and trace[-1] == "ok":
+                cur = None        # the endpoint was closed: no socket of its own may stay open, the current one included
             leaked = [s for s in mine if not s.closed and s is not cur]
             if leaked:
                 viols.append(("client-leak:%s:%s" % (ev, "tls" if tls else "plain"),
